@@ -524,9 +524,22 @@ class SmallSet {
     if (!isSmall() && !o.isSmall()) {
       return _set == o._set;
     }
-    // We have at least one set that is unsorted. Use is_permutation
+    // We have at least one set that is unsorted: as for the relational operators, compare the elements in the order of
+    // each set's own comparator (like std::set does), so that the result does not depend on the small / large states.
     // We use equality here, not equivalence (ie using == operator instead of <)
-    return std::is_permutation(begin(), end(), o.begin(), o.end());
+    if (isSmall()) {
+      auto sortedPtrs = ComputeSortedPtrVec(_vec, key_comp());
+      if (o.isSmall()) {
+        auto oSortedPtrs = ComputeSortedPtrVec(o._vec, o.key_comp());
+        return std::equal(sortedPtrs.begin(), sortedPtrs.end(), oSortedPtrs.begin(),
+                          [](const_pointer lhs, const_pointer rhs) { return *lhs == *rhs; });
+      }
+      return std::equal(sortedPtrs.begin(), sortedPtrs.end(), o._set.begin(),
+                        [](const_pointer lhs, const_reference rhs) { return *lhs == rhs; });
+    }
+    auto oSortedPtrs = ComputeSortedPtrVec(o._vec, o.key_comp());
+    return std::equal(_set.begin(), _set.end(), oSortedPtrs.begin(),
+                      [](const_reference lhs, const_pointer rhs) { return lhs == *rhs; });
   }
 
   bool operator!=(const SmallSet &o) const { return !(*this == o); }
